@@ -126,7 +126,7 @@ def _ob_weights(op, pieces=1):
         ch = Chain(I, CONTRACTS_FM)
         st, _ = c05.run(I, ch, b, op, v)
         I.observe('status', 'ok' if st == 'ok' else 'err')
-        for u in ('alice', 'bob', 'carol', FM):
+        for u in ('alice', 'bob', 'carol', FM, PMA):
             for e in (c05.E, c05.E + 1):
                 snaps = dict(weights_of(I, u, LP1))
                 I.observe('snap:%s:%s:%d' % (u, LP1, e), snaps.get(e))
@@ -136,6 +136,7 @@ def _ob_weights(op, pieces=1):
         I.cover('ok', c05.HINT)
         T1 = _resolved(I, FM, c05.E + 1)
         after = {u: _resolved(I, u, c05.E + 1) for u in ('alice', 'bob', 'carol')}
+        I.check('pool_manager_holds_no_weight', smt.Eq(_resolved(I, PMA, c05.E + 1), 0))
         du = sum((after[u] - before[u]) for u in after)
         if pieces == 2:
             # the inductive step of `total >= sum of the users' weights`: the total never drops by more than the users' weights do
@@ -151,7 +152,11 @@ def _ob_weights(op, pieces=1):
             I.check('current_epoch_weights_untouched', smt.Eq(_resolved(I, u, c05.E), cur_before[u]))
         if op in ('withdraw_unlocked', 'emergency_closed', 'claim', 'claim_until', 'create_farm', 'expand_farm', 'close_farm', 'close_lp_reward_farm'):
             I.check('no_weight_change_without_an_open_position_change', smt.And(smt.Eq(T1, T0), smt.Eq(du, 0)))
-        if op == 'create_position':
+        if op in ('expand_position', 'expand_by_pool_manager'):
+            amt = I.inputs['amount']
+            s2, r2 = I.try_call('calculate_weight', [Ref([coin_v(LP1, amt)], 0), 30 * DAY], CR)
+            I.check('top_up_adds_its_weight_to_the_position_owner', smt.Eq(after['alice'] - before['alice'], r2.f[0]))
+        if op in ('create_position', 'create_by_pool_manager'):
             amt = I.inputs['amount']
             s2, r2 = I.try_call('calculate_weight', [Ref([coin_v(LP1, amt)], 0), 30 * DAY], CR)
             I.check('new_position_adds_its_weight_from_next_epoch', smt.Eq(after['carol'], r2.f[0]))
